@@ -235,4 +235,14 @@ func (b *block) ownedBy(r *Reader) bool { return b.owner == r }
 
 func (b *block) hasData() bool { return b.buf != nil }
 
-func (b *block) txOffset() Offset { return b.offset }
+func (b *block) txOffset() Offset {
+	if b.buf != nil && b.buf.Len() == 0 && b.buf.Size() > 0xffff {
+		// The end of a block holding the maximum of 65536 bytes has no
+		// offset within the block: Offset.Block is 16 bits wide and has
+		// wrapped to zero. The position is the start of the next block.
+		if next := b.NextBase(); next >= 0 {
+			return Offset{File: next}
+		}
+	}
+	return b.offset
+}
